@@ -252,8 +252,8 @@ PLAN['C12'] = {
     'technique': 'contract-based deductive verification (Verus) of the expression constructors of context/mod.rs and of BinaryOpcode::eval / UnaryOpcode::eval on their real text; Kani full-domain harnesses discharging every float identity the rewrites rely on; bounded native contract runner as counterexample search',
     'level_text': 'Partial (constructor clause of the property only). Proved for every arena, every operand (node handle or number, through the generic IntoNode parameter) and every variable assignment: each of the 38 constructors returns a node whose operation-by-operation meaning `sem` is the f32 operation applied to the meanings of its operands - exactly for the constructors without rewrites (all unary ones, atan2, compare, mix, modulo, and the internal op_unary/op_binary with constant folding through the verified UnaryOpcode::eval/BinaryOpcode::eval), and up to the sign of a zero result under the finiteness hedge of the property for add, mul, sub, div, min, max, and, or (identity elimination x+0, 0+x, x*1, 1*x, x*0, 0*x, x-0, 0-x, 0/x, x/1, x+x -> 2x, x*x -> square, min/max(x,x), and/or with a constant operand, operand reordering of commutative operations); the arena only grows and keeps the meaning of every existing node; no constructor can panic.  Each float identity used is an axiom of the unit and is proved for all f32 bit patterns by a Kani harness of the same name.  NOT covered: deduplication (same expression -> same node), import/export, Tree hashing/equality, deep-recursion safety, the text parser; Context::eval itself (HashMap, closure recursion) is not under contract: `sem` is its specification.',
     'level_note': 'Level other: one clause of the property (constructor rewrites preserve meaning) is proved; the other clauses (deduplication, import/export round trip, hashing, stack safety) are not applicable to this technique (HashMap-backed arena, explicit-stack walkers over Arc pointers) and are not claimed. Trusted: Verus+Z3, Kani/CBMC, the stub of the hash-consing arena IndexMap (insert finds or appends; existing entries unchanged), local stand-ins for Var/OrderedFloat, uninterpreted libm functions and FloatExt functions, extractor rules R-floatpat, R-letchain, R-tail, R-closure-underscore, R-derive-ord.',
-    'legs': [leg_verus('context'), leg_kani('leaf'), leg_bounded('context_rewrites')],
-    'cex': ['context_rewrites'],
+    'legs': [leg_verus('context'), leg_kani('leaf'), leg_bounded('context_rewrites'), leg_bounded('tree_clauses')],
+    'cex': ['context_rewrites', 'tree_clauses'],
     'explanation': 'sem(ops, n, env) mirrors Context::eval; every constructor carries requires wf(arena) and ensures grown(old, new, r) plus the meaning equation; callers (add -> mul -> square/op_binary_commutative, sub -> neg, less_than -> max, if_nonzero_else -> and/or/not) see only callee contracts.',
     'assumptions': ['IndexMap::insert contract (stub): returns an index holding the value, existing entries unchanged; deduplication not claimed',
                     'Context::eval computes sem (not under contract; the bounded contracts flatten/context_rewrites compare Context::eval with direct f32 evaluation)',
